@@ -21,7 +21,7 @@ func allBatches(kind string, repo, diamond int, extra ...listT) []listT {
 func runPinned(t *testing.T, name string, c caseT, exclude bool) error {
 	t.Helper()
 	hx.Journal(map[string]interface{}{"pinned": name, "case": c})
-	err, hung, panicked := hx.Guard(120*time.Second, func() error { return runCase(c, false, exclude) })
+	err, hung, panicked := hx.Guard(600*time.Second, func() error { return runCase(c, false, exclude) })
 	if hung {
 		t.Fatalf("%s: HANG", name)
 	}
